@@ -52,7 +52,7 @@ def run(ctx):
         raise Infra("HexWriteBad.cfg: TLC did not refute the early Put (exit %d)" % bad["code"])
     ctx.extra["hexwrite_model"] = "Put-after-Write holds (WireExact, NoSharing); Put-before-Write refuted by TLC"
     # (c) boundary vectors at the real width
-    path, _ = ctx.tlc_gen("data", "IntCodecGen", consts={"VECW": ctx.pick("{64}", "{32, 64}"), "DELTA": ctx.pick(9, 20)},
+    path, _ = ctx.tlc_gen("data", "IntCodecGen", consts={"VECW": ctx.pick("{64}", "{32, 64}"), "DELTA": ctx.pick(9, 20), "DOUBLE": ctx.pick("FALSE", "TRUE")},
                           workers=4, timeout=900)
     if not path:
         raise Infra("IntCodecGen wrote no vectors")
